@@ -74,12 +74,12 @@ Fixpoint path_free (e : gerr) : bool :=
 
 (** * operations, underlying calls, answers *)
 Inductive gop :=
-| ORead (n : Z)                 (* Read(b), len(b) = n *)
-| OWrite (bs : list Z)          (* Write(bs) *)
-| OSetDeadline (t : Z)
-| OSetReadDeadline (t : Z)
-| OSetWriteDeadline (t : Z)
-| OClose.
+| OpRead (n : Z)                 (* Read(b), len(b) = n *)
+| OpWrite (bs : list Z)          (* Write(bs) *)
+| OpSetDeadline (t : Z)
+| OpSetReadDeadline (t : Z)
+| OpSetWriteDeadline (t : Z)
+| OpClose.
 
 (** a call on an underlying object (the file of a fileConn; one ipv4.PacketConn of a udpTxRx:
     there [CRead] = ReadFrom(b), [CWrite] = WriteTo(b, nil, nil)) *)
@@ -102,21 +102,21 @@ Record gresult := mkRes { rn : Z; rdata : list Z; rerr : gerr }.
 
 Definition label_of (o : gop) : oplabel :=
   match o with
-  | ORead _ => LRead | OWrite _ => LWrite | OSetDeadline _ => LSetDeadline
-  | OSetReadDeadline _ => LSetReadDeadline | OSetWriteDeadline _ => LSetWriteDeadline | OClose => LClose
+  | OpRead _ => LRead | OpWrite _ => LWrite | OpSetDeadline _ => LSetDeadline
+  | OpSetReadDeadline _ => LSetReadDeadline | OpSetWriteDeadline _ => LSetWriteDeadline | OpClose => LClose
   end.
 
 (** the one call a fileConn operation forwards to: same method, same arguments *)
 Definition call_of (o : gop) : ucall :=
   match o with
-  | ORead n => CRead n | OWrite bs => CWrite bs | OSetDeadline t => CSetDeadline t
-  | OSetReadDeadline t => CSetReadDeadline t | OSetWriteDeadline t => CSetWriteDeadline t | OClose => CClose
+  | OpRead n => CRead n | OpWrite bs => CWrite bs | OpSetDeadline t => CSetDeadline t
+  | OpSetReadDeadline t => CSetReadDeadline t | OpSetWriteDeadline t => CSetWriteDeadline t | OpClose => CClose
   end.
 
 Definition carries_count (o : gop) : bool :=
-  match o with ORead _ | OWrite _ => true | _ => false end.
+  match o with OpRead _ | OpWrite _ => true | _ => false end.
 Definition carries_data (o : gop) : bool :=
-  match o with ORead _ => true | _ => false end.
+  match o with OpRead _ => true | _ => false end.
 
 (** * fileConn (fileconn.go:34-86) *)
 (** &net.OpError{Op: l, Net: c.net, ..., Err: unwrapPathError(err)} if err != nil *)
@@ -145,15 +145,15 @@ Inductive side := Rx | Tx.
     if it makes one *)
 Definition udp_step (o : gop) (arx atx : answer) : list (side * ucall) * gresult :=
   match o with
-  | ORead n => ([(Rx, CRead n)], mkRes (an arx) (adata arx) (aerr arx))
-  | OWrite bs => ([(Tx, CWrite bs)], mkRes (an atx) [] (aerr atx))
-  | OSetDeadline t =>
+  | OpRead n => ([(Rx, CRead n)], mkRes (an arx) (adata arx) (aerr arx))
+  | OpWrite bs => ([(Tx, CWrite bs)], mkRes (an atx) [] (aerr atx))
+  | OpSetDeadline t =>
       if is_nil_err (aerr arx)
       then ([(Rx, CSetReadDeadline t); (Tx, CSetWriteDeadline t)], mkRes 0 [] (aerr atx))
       else ([(Rx, CSetReadDeadline t)], mkRes 0 [] (aerr arx))
-  | OSetReadDeadline t => ([(Rx, CSetReadDeadline t)], mkRes 0 [] (aerr arx))
-  | OSetWriteDeadline t => ([(Tx, CSetWriteDeadline t)], mkRes 0 [] (aerr atx))
-  | OClose =>
+  | OpSetReadDeadline t => ([(Rx, CSetReadDeadline t)], mkRes 0 [] (aerr arx))
+  | OpSetWriteDeadline t => ([(Tx, CSetWriteDeadline t)], mkRes 0 [] (aerr atx))
+  | OpClose =>
       ([(Tx, CClose); (Rx, CClose)],
        mkRes 0 [] (if is_nil_err (aerr atx) then aerr arx else aerr atx))
   end.
@@ -177,7 +177,7 @@ Fixpoint udp_run (ops : list gop) (srx stx : list answer) : list (list (side * u
 (** * Receiver / Transmitter on top of the glue: the bridge to Receiver.v / Transmitter.v lives in
     GlueProofs.v (it needs those models); here only the reads a fileConn hands to its client *)
 Definition fileconn_reads (net : Z) (lens : list Z) (script : list answer) : list gresult :=
-  map snd (fileconn_run net (map ORead lens) script).
+  map snd (fileconn_run net (map OpRead lens) script).
 
 (** * dialCtx (dial.go:54-82) as a labelled transition system.
     Three goroutines: the caller (in the select), the provider goroutine (calls connProvider,
